@@ -78,7 +78,7 @@ ThermoClauses(e) ==
 \* e.nmisc / e.dmisc (the extra models of the species and their direct calls; a hole contributes the default),
 \* e.hasRefs / e.refs (the species carries a References object; what the references slot must hold)
 VerboseClauses(e) ==
-   Chk(IF e.g = "q" THEN Close(e.tot, ProdSeq(e.parts), 6)
+   Chk(IF e.g = "q" THEN (Mag(ProdSeq(e.parts)) < -290 \/ Close(e.tot, ProdSeq(e.parts), 6))
        ELSE CloseIn(e.tot, SumSeq(e.parts), SetOf(e.parts), 7),
        IF e.g = "q" THEN "ProdOfVerbose" ELSE "SumOfVerbose")
    \cup Chk(Len(e.parts) >= 6 /\ \A k \in 1..5 : e.parts[k] = e.direct[k], "VerboseMatchesMode")
@@ -178,7 +178,9 @@ HarmonicClauses(e) ==
          \cup Chk(CloseIn(e.U, SumSeq(us), SetOf(us), 6), "HarmonicTextbookU")
          \cup Chk(CloseIn(e.S, SumSeq(ss), SetOf(ss) \cup SetOf(e.lg) \cup {Tiny}, 6), "HarmonicTextbookS")
          \cup Chk(CloseIn(e.Cv, SumSeq(cs), SetOf(cs) \cup {Tiny}, 6), "HarmonicTextbookCv")
-         \cup Chk(Close(Mul(e.q, den), num, 5), "HarmonicTextbookQ")
+         \* q below ~1e-290 cannot be held by a double (many stiff modes at low T): the property is about the
+         \* value, not its representability, so q is judged only where a double can hold it
+         \cup Chk(Mag(num) - Mag(den) < -290 \/ Close(Mul(e.q, den), num, 5), "HarmonicTextbookQ")
          \cup Chk(Close(Mul(e.qnz, den), One, 5), "HarmonicTextbookQnoZPE")
          \cup Chk(Close(Mul(I(2), e.ZPE), zpe2, 6), "HarmonicZPE")
          \cup Chk(e.qdef = e.q, "HarmonicQDefaultIncludesZPE")
